@@ -122,6 +122,8 @@ type c19Echo struct {
 	Q      string `json:"q" xml:"q"`
 	Attrs  string `json:"attrs" xml:"attrs"`
 	Ent    string `json:"ent" xml:"ent"`
+	Sel    string `json:"sel" xml:"sel"` // what the RouteReader of the selected route reports
+	Hdr    string `json:"hdr" xml:"hdr"`
 }
 
 func c19Build(sc *c19Scen) *restful.Container { return c19BuildH(sc, false) }
@@ -184,6 +186,12 @@ func c19BuildH(sc *c19Scen, history bool) *restful.Container {
 		y(sim.SiteHandler)
 		trail, _ := req.Attribute("trail").(string)
 		e := c19Echo{Route: req.SelectedRoutePath(), Params: kv(req.PathParameters()), Q: req.QueryParameter("q"), Attrs: trail}
+		if sr := req.SelectedRoute(); sr != nil {
+			// declared properties of the selected route as the handler sees them: configuration, so the
+			// same for every request to this route whatever was served before
+			e.Sel = fmt.Sprint(sr.Method(), " ", sr.Path(), " consumes=", sr.Consumes(), " deprecated=", sr.Deprecated(), " meta=", len(sr.Metadata()))
+		}
+		e.Hdr = req.HeaderParameter("X-Sim-Tok")
 		if req.Request.Method == "POST" {
 			// the entity carries the request's own token: a body decoded through another request's
 			// decompressor shows in the echo
@@ -230,7 +238,7 @@ func (r *c19Req) serve(c *restful.Container, entry int, t *sim.Task, id int) str
 
 // serveGone: with gone > 0 the client's writer fails from underlying write #gone-1 on.
 func (r *c19Req) serveGone(c *restful.Container, entry int, t *sim.Task, id int, gone int) (string, bool) {
-	hdr := map[string]string{}
+	hdr := map[string]string{"X-Sim-Tok": r.Tok}
 	if r.Origin != "" {
 		hdr["Origin"] = r.Origin
 	}
